@@ -602,7 +602,8 @@ def run_literals(ck, info):
             ck.disagreement("a printed float does not lex back to itself", dict(case, real_lex=str(rl)[:200]), (lambda c, cls=cls: cls))
     # identifiers: display_ident_part (expression position) and write_ident_part (alias position) through the formatter
     parts = list(dict.fromkeys(G.PLAIN_IDS + G.QUOTED_IDS + G.KEYWORD_IDS + ["x$", "$", "_", "a1", "A_b", "ä", "a b c", "1", "a.b.c", "in", "this", "true1", "nul", "r", "s", "f", "е", "a\nb", "a\tb", "semi;colon"]))
-    parts = [p for p in parts if "`" not in p]
+    parts += G.unicode_names()[::3]
+    parts = [p for p in dict.fromkeys(parts) if "`" not in p]
     ra = harness("fmt", [{"src": "let v = `%s`\n" % p} for p in parts])
     rb = harness("fmt", [{"src": "let v = {`%s` = 1}\n" % p} for p in parts])
     vi = coq_eval(HEADER, ["(display_ident_part I_prql %s, write_ident_part I_prql %s)" % ((coq(codes(p)),) * 2) for p in parts])
